@@ -103,7 +103,13 @@ def gen_atom(rng, opts):
             return ("regex", "tags", (rng.choice(TAG_KEYS),), kind, rng.choice(REGEXES), flags)
         return ("regex", "measurement", (), kind, rng.choice(REGEXES), flags)
     if k == "test":
-        c = rng.randrange(7)
+        c = rng.randrange(9)
+        if c == 7:
+            # an operator-module function as the test function of a TimeQuery (stored points always have a time)
+            us = rng.choice(GRID) + rng.choice([0, 1, -1])
+            return ("test", "time", (), rng.choice(["op_lt", "op_ge", "op_eq", "op_ne"]), (("T", us, rng.choice(OFFSETS)),))
+        if c == 8:
+            return ("test", "measurement", (), rng.choice(["op_eq", "op_ne", "op_lt"]), (rng.choice(MEAS),))
         if c == 0:
             return ("test", "tags", (rng.choice(TAG_KEYS),), "is_none", ())
         if c == 1:
@@ -120,7 +126,12 @@ def gen_atom(rng, opts):
             return ("test", "fields", (rng.choice(FIELD_KEYS),), "between_args", (rng.choice([-1, 0]), rng.choice([1, 2.5])))
         return ("test", "fields", (rng.choice(FIELD_KEYS),), "in_args", (0, 2.5))
     if k == "map":
-        c = rng.randrange(8)
+        c = rng.randrange(10)
+        if c == 8:
+            # a map function that raises: the path cannot be resolved, the query is false (never an error)
+            return ("cmp", "measurement", (("map", "raise"),), rng.choice(["==", "!="]), rng.choice(MEAS))
+        if c == 9:
+            return ("cmp", "time", (("map", "raise"),), rng.choice(ops), ("T", rng.choice(GRID), 0))
         if c == 0:
             return ("cmp", "tags", (rng.choice(TAG_KEYS), ("map", "upper")), "==", rng.choice(["A", "B", "A1", ""]))
         if c == 1:
